@@ -349,6 +349,8 @@ def check(ctx: Ctx) -> None:
 
 L, B, PF = "pipefunc/lazy.py", "pipefunc/_pipeline/_base.py", "pipefunc/_pipefunc.py"
 MUTANTS = [
+    Mutant("shared-mutable-default", "pipefunc/lazy.py", "def evaluate_lazy(x: Any) -> Any:\n", "def evaluate_lazy(x: Any, _seen: list = []) -> Any:  # noqa: B006\n    _seen.append(id(x))\n", ("C18.5-dag",), why="round-6 seed C18/17 (the rule's expected count is zero: this is its positive example)"),
+    Mutant("cache-update-forces", "pipefunc/_pipeline/_cache.py", "    # Used in _run\n    if isinstance(cache, HybridCache):\n", "    # Used in _run\n    from pipefunc.lazy import evaluate_lazy\n\n    evaluate_lazy(r)\n    if isinstance(cache, HybridCache):\n", ("C18.1-deferred",), why="round-6 seed C18/16"),
     Mutant("containers-by-isinstance-F42", "pipefunc/lazy.py", "    if container_type is tuple:\n", "    if isinstance(x, tuple):\n", ("C18.4-recursion",), why="original F42"),
     Mutant("disk-cache-pickles-lazy-nodes", "pipefunc/_pipeline/_cache.py", "        cache_kwargs.setdefault(\"lru_shared\", not lazy)\n", "", ("C18.3-shared",), why="round-4 seed C18/11"),
     Mutant("evaluate-skips-resolution-for-pipefuncs", "pipefunc/lazy.py", "        args = evaluate_lazy(self.args)\n        kwargs = evaluate_lazy(self.kwargs)\n", "        if hasattr(self.func, \"output_name\"):\n            args, kwargs = self.args, self.kwargs\n        else:\n            args = evaluate_lazy(self.args)\n            kwargs = evaluate_lazy(self.kwargs)\n", ("C18.2-memo",), why="round-4 seed C18/10"),
